@@ -156,7 +156,8 @@ def main(tier, seed, prop='C05'):
                     states=[s['st'] for s in r['snapshots']])
     spec_set = set(failing['spec'])
     for i in failing['spec']:
-        dec.report(rec(i, 'invariant-violated-by-implementation'))
+        dec.report(pd.with_minimal('C05', rec(i, 'invariant-violated-by-implementation'),
+                                   dict(ops=obs[i][2], acceptor=obs[i][1]), ('spec', 'c05_spec')))
     for i in failing['corr']:
         if i not in spec_set:
             dec.report(dict(rec(i, 'model-differs'), theorem='correspondence prov_corr (Model.Provider vs real loop)'),
